@@ -103,3 +103,157 @@ M.loop(P_STRIP + ':_strip_trailing_new_lines', 1, invariant=_inv_tnl,
 M.loop(P_STRIP + ':_strip_trailing_new_lines', 2, invariant=_inv_tnl_inner,
        modifies=dict(yielded='len', num_empty_lines_skipped=Int),
        decreases=lambda num_empty_lines_skipped: num_empty_lines_skipped)
+
+
+# ------------------------------------------------------------------------------ strip -trailing-space
+
+def all_space(s):
+    """every character of s is white space (str.isspace); true of the empty string"""
+    return s == '' or s.isspace()
+
+
+def is_rstripped_space(r, t):
+    """r is t without the white space at its end: t == r + b, b is white space only, r is empty or its last
+    character is not white space"""
+    return len(r) <= len(t) and t[:len(r)] == r and all_space(t[len(r):]) \
+        and (r == '' or not r[len(r) - 1:].isspace())
+
+
+M.contract(P_STRIP + ':_strip_trailing_space',
+           params=dict(lines=IterOf(Str)),
+           requires=lambda lines: proper_lines(lines.xs),
+           old=lambda lines: join_of(lines.xs),
+           yields=ListOf(Str),
+           ensures={
+               'yields the lines of the text without the white space at its end':
+                   lambda yielded, old: is_split_nl(yielded, join_of(yielded))
+                   and is_rstripped_space(join_of(yielded), old),
+           },
+           raises_only=())
+
+
+def _space_at_end(line):
+    return line[len(line.rstrip()):]
+
+
+def _inv_ts(_i, lines, yielded, line_before_empty_lines_list, empty_lines_skipped):
+    xs = lines.xs
+    m = len(yielded)
+    return m + 1 + len(empty_lines_skipped) == _i \
+        and line_before_empty_lines_list == xs[m] \
+        and (m == 0 or not xs[m].isspace()) \
+        and all_space(join_of(empty_lines_skipped)) \
+        and all_space(_space_at_end(xs[m]) + join_of(empty_lines_skipped)) \
+        and prefix_join(xs, _i) == prefix_join(xs, m) + xs[m].rstrip() + (_space_at_end(xs[m]) + join_of(empty_lines_skipped)) \
+        and join_of(yielded) == prefix_join(xs, m) \
+        and forall_range(0, m, lambda j: yielded[j] == xs[j]) \
+        and forall_range(0, len(empty_lines_skipped), lambda k: empty_lines_skipped[k] == xs[_i - len(empty_lines_skipped) + k])
+
+
+def _inv_ts_inner(_i, _i1, lines, yielded, empty_lines_skipped):
+    xs = lines.xs
+    m = len(yielded)
+    return m + (len(empty_lines_skipped) - _i) == _i1 \
+        and join_of(yielded) == prefix_join(xs, m) \
+        and forall_range(0, m, lambda j: yielded[j] == xs[j]) \
+        and forall_range(0, len(empty_lines_skipped), lambda k: empty_lines_skipped[k] == xs[_i1 - len(empty_lines_skipped) + k])
+
+
+M.loop(P_STRIP + ':_strip_trailing_space', 0, invariant=lambda _i: _i == 0,
+       modifies=dict(line_before_empty_lines_list=Str))
+M.loop(P_STRIP + ':_strip_trailing_space', 1, invariant=_inv_ts,
+       modifies=dict(yielded='len', line_before_empty_lines_list=Str, empty_lines_skipped=MListOf(Str),
+                     next_line='local', empty_line='local'))
+M.loop(P_STRIP + ':_strip_trailing_space', 2, invariant=_inv_ts_inner,
+       modifies=dict(yielded='len', empty_line='local'))
+
+
+# ------------------------------------------------------------------------------ what is assumed of CPython
+# The proofs above interpret `x.isspace()`, `x.rstrip()`, `x.lstrip()` of a line x by the engine's models
+# (pyvc/charclass.py): white space is the class W of the one-character strings c with c.isspace() (uninterpreted
+# except on ASCII); (S1) x.isspace()  <=>  x != '' and every character of x is in W;  (S2) x.rstrip() = r with
+# x == r + b, every character of b in W, r empty or its last character not in W;  (S3) x.lstrip() symmetrically.
+# The check below evaluates these facts on every code point (in every position of a short context), and on every
+# short text over an alphabet with ASCII and non-ASCII white space; it also confirms that the texts characterised by
+# is_rstripped_nl / is_rstripped_space (/ is_stripped_space) are CPython's t.rstrip('\n') / t.rstrip() (/ t.strip()).
+
+_SPACE_ALPHABET = ' \n\ta\x0c\u2003\x1f\xa0b'
+
+
+def _all_texts(alphabet, max_len):
+    import itertools
+    for n in range(max_len + 1):
+        for t in itertools.product(alphabet, repeat=n):
+            yield ''.join(t)
+
+
+def _is_stripped_space_native(r, t):
+    """t == a + r + b, a and b white space only, r empty or neither its first nor its last character is white space
+    (native: searches the position)"""
+    return any(t[p:p + len(r)] == r and all_space(t[:p]) and all_space(t[p + len(r):]) for p in range(len(t) - len(r) + 1)) \
+        and (r == '' or not (r[0].isspace() or r[-1].isspace()))
+
+
+@M.check('strip-models')
+def _strip_models(ctx):
+    bad = []
+    n = 0
+    for cp in range(0x110000):
+        c = chr(cp)
+        sp = c.isspace()
+        n += 1
+        ok = (('a' + c).rstrip() == ('a' if sp else 'a' + c)
+              and (c + 'a').lstrip() == ('a' if sp else c + 'a')
+              and c.strip() == ('' if sp else c) and c.rstrip() == ('' if sp else c) and c.lstrip() == ('' if sp else c)
+              and ('a' + c + 'a').strip() == 'a' + c + 'a'
+              and (' ' + c + '\n').isspace() == sp and (c + c).isspace() == sp
+              and not ('a' + c).isspace() and not (c + 'a').isspace()
+              and (' ' + c + ' ').strip() == ('' if sp else c)
+              and ('a ' + c + ' \n').rstrip() == ('a' if sp else 'a ' + c)
+              and (' \n' + c + ' a').lstrip() == ('a' if sp else c + ' a'))
+        if not ok:
+            bad.append(cp)
+    ctx.obligation('str.isspace / strip / lstrip / rstrip are defined character by character by the class of '
+                   'c.isspace(): every code point in every position of a short context (all 0x110000 code points)',
+                   not bad, 'enumeration', {'code points': n, 'counterexamples': bad[:5]})
+    ok = not ''.isspace() and all(chr(i).isspace() == (chr(i) in ' \t\n\r\x0b\x0c\x1c\x1d\x1e\x1f') for i in range(128)) \
+        and '\n'.isspace()
+    ctx.obligation('white space among the ASCII characters: space, \\t \\n \\r \\x0b \\x0c \\x1c-\\x1f; the empty string '
+                   'is not isspace()', ok, 'enumeration', {})
+    bad = None
+    n = 0
+    max_len = 6 if ctx.tier == 'thorough' else 5
+    for t in _all_texts(_SPACE_ALPHABET, max_len):
+        n += 1
+        r = t.rstrip()
+        l = t.lstrip()
+        if not (t.isspace() == (t != '' and all(c.isspace() for c in t))
+                and t.startswith(r) and all_space(t[len(r):]) and (r == '' or not r[-1].isspace())
+                and t.endswith(l) and all_space(t[:len(t) - len(l)]) and (l == '' or not l[0].isspace())
+                and is_rstripped_space(r, t)
+                and all(is_rstripped_space(t[:k], t) == (t[:k] == r) for k in range(len(t) + 1))
+                and _is_stripped_space_native(t.strip(), t)
+                and all(_is_stripped_space_native(t[j:k], t) == (t[j:k] == t.strip())
+                        for j in range(len(t) + 1) for k in range(j, len(t) + 1))
+                and t.strip() == t.lstrip().rstrip()):
+            bad = t
+    ctx.obligation('models (S1)-(S3) of isspace / rstrip / lstrip, and: the text characterised by is_rstripped_space / '
+                   'is_stripped_space is unique and is t.rstrip() / t.strip()', bad is None, 'enumeration',
+                   {'texts': n, 'alphabet': repr(_SPACE_ALPHABET), 'max length': max_len, 'counterexample': repr(bad)})
+    bad = None
+    n = 0
+    for t in _all_texts('\na \r', 8 if ctx.tier == 'thorough' else 7):
+        n += 1
+        r = t.rstrip('\n')
+        if not (is_rstripped_nl(r, t)
+                and all(is_rstripped_nl(t[:k], t) == (t[:k] == r) for k in range(len(t) + 1))):
+            bad = t
+    ctx.obligation('the text characterised by is_rstripped_nl is unique and is t.rstrip("\\n")', bad is None,
+                   'enumeration', {'texts': n, 'counterexample': repr(bad)})
+
+
+M.trust('CPython str.isspace / str.rstrip() / str.lstrip() (no argument) on a line: (S1) x.isspace() <=> x is not empty and '
+        'every character c of x has c.isspace(); (S2)/(S3) x.rstrip() / x.lstrip() split x into the result and a piece of '
+        'white space only, the result is empty or does not end / start with white space (pyvc/charclass.py; the class of '
+        'c.isspace() is uninterpreted except on ASCII).  Cross-checked against CPython on all 0x110000 code points and on '
+        'all short texts by the check `strip-models` on every run')
